@@ -17,7 +17,7 @@ import traceback
 from pathlib import Path
 
 VERIF = Path(__file__).resolve().parent.parent
-EVIDENCE_DIR = VERIF / "evidence"
+EVIDENCE_DIR = Path(os.environ["PGVERIF_EVIDENCE_DIR"]) if os.environ.get("PGVERIF_EVIDENCE_DIR") else VERIF / "evidence"   # scratch runs (seeded variants, self-test) write elsewhere
 REPLAY_DIR = EVIDENCE_DIR / "replay"
 KNOWN_FILE = VERIF / "known_findings.json"
 
@@ -173,7 +173,7 @@ class Ctx:
             "wall_s": round(wall, 3),
             "violations": len(new),
         }
-        EVIDENCE_DIR.mkdir(exist_ok=True)
+        EVIDENCE_DIR.mkdir(parents=True, exist_ok=True)
         (EVIDENCE_DIR / f"{self.prop_id}.json").write_text(json.dumps(ev, indent=1, sort_keys=False))
         for f, e in old:
             print(f"KNOWN-FINDING: property={self.prop_id} {f.fullkey} :: {e.get('what', f.message)}")
